@@ -524,6 +524,18 @@ def one_round(seed, shard, heavy, do_sub, do_toys):
             patches.append([{"op": "replace", "path": f"/channels/{ci}/samples/{si}/data", "value": [gen._round(rng.uniform(2, 30), 2) for _ in range(nb)]}])
         patchfiles = [env.write(f"patch{k}.json", p) for k, p in enumerate(patches)]
         run_infer(env, rng, ws, wsfile, patchfiles, patches, heavy)
+        # q and qtilde only differ when the data show a deficit: a differential pair on such a workspace
+        import pyhf
+        wdef = copy.deepcopy(ws)
+        for o in wdef["observations"]:
+            o["data"] = [float(int(0.55 * v)) for v in o["data"]]
+        deffile = env.write("ws_deficit.json", wdef)
+        for ts in ("q", "qtilde"):
+            def lib(ts=ts):
+                w, model = lib_model(wdef, None, [])
+                r = pyhf.infer.hypotest(1.0, w.data(model), model, test_stat=ts, return_expected_set=True)
+                return {"CLs_obs": float(to_np(r[0])), "CLs_exp": [float(to_np(t)) for t in r[-1]]}
+            env.judge("cls", ["cls", deffile, "--test-stat", ts], None, lib, nondefault=2, compare=lambda a, b: deep_close(a, b, 1e-7))
         run_inspect(env, rng, ws, wsfile)
         run_spec_ops(env, rng, ws, wsfile, ws2, ws2file)
         run_patchset(env, rng, ws, wsfile)
